@@ -18,7 +18,14 @@ SC = "panoptica.utils.segmentation_class."
 GROUPS = ["g1", "g2"]
 METS = ["m1", "m2"]
 HEADER = ["subject_name"] + [f"{g}-{m}" for g in GROUPS for m in METS]
-OUT = "/data/run/results.tsv"
+OUT = "/data/run/results.tsv"   # the file rows end up in
+ARG = OUT                        # the path handed to the constructor
+VARIANTS = {"tsv": ("/data/run/results.tsv", "/data/run/results.tsv"), "noext": ("/data/run/results", "/data/run/results.tsv")}
+
+
+def use_variant(v):
+    global ARG, OUT
+    ARG, OUT = VARIANTS[v]
 
 
 def mk_evaluator(e):
@@ -34,7 +41,7 @@ INITIAL = {
     "absent": None,
     "empty": [],
     "header-only": [list(HEADER)],
-    "header+rows": [list(HEADER), row("s1"), row("s2")],
+    "header+rows": [list(HEADER), row(" s1"), row("s2 ")],
 }
 
 
@@ -62,7 +69,8 @@ def buffer_key(fs, out=OUT):
     return ks
 
 
-def unit_constructor(ctx, state, stale_buffer):
+def unit_constructor(ctx, state, stale_buffer, variant="tsv"):
+    use_variant(variant)
     eng = ctx.engine()
 
     def mk(e):
@@ -72,11 +80,11 @@ def unit_constructor(ctx, state, stale_buffer):
         if stale_buffer:
             # claims left behind by a killed run (any buffer file the previous session may have used in this directory)
             for nm in ("panoptica_aggregator_tmp.tsv", "results.tsv.panoptica_aggregator_tmp.tsv"):
-                fs.files["/data/run/" + nm] = [["s1"], ["zombie"]]
-        return [mk_evaluator(e), OUT], {}
+                fs.files["/data/run/" + nm] = [[" s1"], ["zombie"]]
+        return [mk_evaluator(e), ARG], {}
     paths = eng.run(PA + "Panoptica_Aggregator", mk)
     fn = PA + "Panoptica_Aggregator.__init__"
-    nm = f"panoptica_aggregator.Panoptica_Aggregator.__init__[{state}{', stale buffer' if stale_buffer else ''}]"
+    nm = f"panoptica_aggregator.Panoptica_Aggregator.__init__[{state}{', stale buffer' if stale_buffer else ''}{', path without extension' if variant == 'noext' else ''}]"
     info = {"state": state, "stale": stale_buffer}
     ctx.oblige(f"{nm}/single-path", [], z3.BoolVal(len(paths) == 1), func=fn)
     for pi, p in enumerate(paths):
@@ -103,18 +111,22 @@ def unit_constructor(ctx, state, stale_buffer):
 
 
 def unit_wrong_header(ctx):
+    use_variant("tsv")
     eng = ctx.engine()
+    permuted = [HEADER[0], HEADER[3], HEADER[4], HEADER[1], HEADER[2]]  # same cells, groups in another order
+    for label, hdr in (("different header", ["subject_name", "other-m1"]), ("same columns in a different order", permuted), ("header with an extra column", HEADER + ["g1-m3"])):
+        content = [list(hdr), ["s1"] + [Written(1.0)] * (len(hdr) - 1)]
 
-    def mk(e):
-        fs = e.ghost_fs
-        fs.dirs.add("/data/run")
-        fs.files[OUT] = [["subject_name", "other-m1"], ["s1", Written(1.0)]]
-        return [mk_evaluator(e), OUT], {}
-    paths = eng.run(PA + "Panoptica_Aggregator", mk)
-    ok = len(paths) == 1 and paths[0].kind == "raise" and paths[0].exc.name() == "AssertionError"
-    untouched = eng.ghost_fs_snapshot.get(OUT) == [["subject_name", "other-m1"], ["s1", Written(1.0)]]
-    ctx.oblige("panoptica_aggregator.Panoptica_Aggregator.__init__[different header]/post(rejected with AssertionError; file untouched)", [], z3.BoolVal(bool(ok and untouched)),
-               func=PA + "Panoptica_Aggregator.__init__")
+        def mk(e, content=content):
+            fs = e.ghost_fs
+            fs.dirs.add("/data/run")
+            fs.files[OUT] = [list(r) for r in content]
+            return [mk_evaluator(e), ARG], {}
+        paths = eng.run(PA + "Panoptica_Aggregator", mk)
+        ok = len(paths) == 1 and paths[0].kind == "raise" and paths[0].exc.name() == "AssertionError"
+        untouched = eng.ghost_fs_snapshot.get(OUT) == content
+        ctx.oblige(f"panoptica_aggregator.Panoptica_Aggregator.__init__[{label}]/post(rejected with AssertionError; file untouched)", [], z3.BoolVal(bool(ok and untouched)),
+                   func=PA + "Panoptica_Aggregator.__init__", replay="c17.header_order", info={"structural": True, "label": label})
 
 
 def _run_session(eng, initial_rows, subjects, crash_at=None, stale=None):
@@ -137,7 +149,7 @@ def _run_session(eng, initial_rows, subjects, crash_at=None, stale=None):
 
     def target():
         ev = mk_evaluator(eng)
-        agg = eng.call(eng.resolve(PA + "Panoptica_Aggregator"), [ev, OUT], {})
+        agg = eng.call(eng.resolve(PA + "Panoptica_Aggregator"), [ev, ARG], {})
         for s in subjects:
             eng.call(eng.getattr(agg, "evaluate"), ["PRED", "REF", s], {})
         return agg
@@ -150,12 +162,13 @@ def _run_session(eng, initial_rows, subjects, crash_at=None, stale=None):
     return paths
 
 
-def unit_crash_points(ctx, state):
+def unit_crash_points(ctx, state, variant="tsv"):
     """kill the session after every single file operation; CI must hold; a restarted session must finish the job"""
+    use_variant(variant)
     eng = ctx.engine()
-    subjects = ["s1", "s2", "s3"]
+    subjects = [" s1", "s2 ", "s3"]  # names with leading / trailing blanks are names like any other
     full = _run_session(eng, INITIAL[state], subjects)
-    nm = f"panoptica_aggregator[session from {state}]"
+    nm = f"panoptica_aggregator[session from {state}{', path without extension' if variant == 'noext' else ''}]"
     fn = PA + "Panoptica_Aggregator.evaluate"
     ok_full = len(full) == 1 and full[0].kind == "return"
     ctx.oblige(f"{nm}/uninterrupted-run-completes", [], z3.BoolVal(bool(ok_full)), func=fn, replay="c17.restart", info={"state": state})
@@ -195,8 +208,9 @@ def unit_crash_points(ctx, state):
 
 def unit_neighbours(ctx):
     """aggregators on different output files never share a buffer file (also in the same directory)"""
+    use_variant("tsv")
     eng = ctx.engine()
-    outs = ["/d/a.tsv", "/d/b.tsv", "/d/sub/a.tsv", "/d/a", "/d/a.b.tsv"]
+    outs = ["/d/a.tsv", "/d/b.tsv", "/d/sub/a.tsv", "/d/a", "/d/a.b.tsv", "/d/a.c.tsv", "/d/A.tsv", "/d/b.tsv.tsv"]
     bufs = {}
     for o in outs:
         def mk(e, o=o):
@@ -210,9 +224,15 @@ def unit_neighbours(ctx):
     vals = [v[0] for v in bufs.values()]
     files = [v[1] for v in bufs.values()]
     ok = len(bufs) == len(outs) and None not in vals and len(set(vals)) == len(set(files)) and not (set(vals) & set(files))
+    collide = []
+    seen = {}
+    for o, (b, f) in bufs.items():
+        if b in seen and seen[b][1] != f:
+            collide = [seen[b][0], o]
+        seen.setdefault(b, (o, f))
     ctx.oblige("panoptica_aggregator.Panoptica_Aggregator.__init__/post(buffer path is injective in the output path and never an output path)", [], z3.BoolVal(bool(ok)),
                func=PA + "Panoptica_Aggregator.__init__", replay="c17.neighbours",
-               info={"buffers": str(bufs), "witness_class": "sibling aggregators in one directory share panoptica_aggregator_tmp.tsv"})
+               info={"buffers": str(bufs), "collide": collide, "structural": True})
 
 
 def build(ctx):
@@ -222,10 +242,13 @@ def build(ctx):
         for stale in (False, True):
             ctx.unit(f"ctor[{st},{stale}]", lambda st=st, stale=stale: unit_constructor(ctx, st, stale))
         ctx.unit(f"crash[{st}]", lambda st=st: unit_crash_points(ctx, st))
+    for st in ("absent", "header+rows"):
+        ctx.unit(f"ctor[{st},noext]", lambda st=st: unit_constructor(ctx, st, False, "noext"))
+        ctx.unit(f"crash[{st},noext]", lambda st=st: unit_crash_points(ctx, st, "noext"))
     ctx.unit("wrong_header", lambda: unit_wrong_header(ctx))
     ctx.unit("neighbours", lambda: unit_neighbours(ctx))
     ctx.add_bounded("c17-crash-restart", "c17.bounded")
 
 
 def concretise(ctx, o, r):
-    return {"obligation": o.name, "state": o.info.get("state")}
+    return {"obligation": o.name, "state": o.info.get("state"), "collide": o.info.get("collide")}
